@@ -75,6 +75,13 @@ class RobotsTxtChecker(object):
 
             session = self._web_client.session(request)
             while not session.done():
+                if session.next_request().url_info.scheme not in (
+                        'http', 'https'):
+                    # Redirected to something that is not a web URL
+                    self._accept_as_blank(url_info)
+
+                    return
+
                 wpull.util.truncate_file(file.name)
 
                 try:
